@@ -56,7 +56,7 @@ var props = map[string]tierCfg{
 	"C14": {QuickRuns: 16000, QuickBudgetS: 40, ThoroughS: 600, Level: "exploration"},
 	"C15": {QuickRuns: 1600, QuickBudgetS: 40, ThoroughS: 600, Level: "fault_enumeration"},
 	"C16": {QuickRuns: 32000, QuickBudgetS: 40, ThoroughS: 600, Level: "exploration"},
-	"C19": {QuickRuns: 16000, QuickBudgetS: 40, ThoroughS: 600, Level: "exploration"},
+	"C19": {QuickRuns: 12000, QuickBudgetS: 40, ThoroughS: 600, Race: true, RaceQuickRuns: 2400, Level: "exploration"},
 	"C20": {QuickRuns: 48000, QuickBudgetS: 40, ThoroughS: 600, Race: true, RaceQuickRuns: 16000, Level: "exploration"},
 }
 
